@@ -342,6 +342,9 @@ func (l *Linter) lintSnippetVCL(vcl *ast.VCL, ctx *context.Context) types.Type {
 				Rule:     "snippet-scope-required",
 			})
 		}
+		// The statements cannot be linted without scope but the included modules are still loaded
+		// in order to report their syntax errors
+		l.resolveIncludeStatements(vcl.Statements, ctx, false)
 		return types.NeverType
 	}
 
